@@ -1,6 +1,6 @@
 PID = "C17"
 WORKER = "w_c17"
-HEADER = "From Coq Require Import List ZArith QArith Qcanon.\nFrom Dimod Require Import Base.Util Model.Poly Model.Comb Gen.Gen_Gates Model.Gates Model.ChkC17.\nImport ListNotations."
+HEADER = "From Coq Require Import List ZArith QArith Qcanon.\nFrom Dimod Require Import Base.Util Model.Poly Model.Comb Gen.Gen_Gates Model.Gates Model.Knap Model.MultCircuit Model.ChkC17.\nImport ListNotations."
 CHECK_FN = "check"
 N_QUICK = 1600
 N_THOROUGH = 30000
@@ -9,22 +9,27 @@ TIMEOUT = 2400
 SHRINK_KEYS = ["edges", "nodes"]
 RULE = ("gates (and/or/xor/halfadder/fulladder) with random distinct labels (ints, negative ints, strings, tuples), strength in "
         "{unset,1/2,1,2,3} plus rejected strengths 0/-1: coefficients against the tables TRANSLATED from gates.py, all 2^n assignments; "
-        "multiplication_circuit(n, m), n,m <= 3: minimum over the auxiliaries for every (a, b, p); "
+        "multiplication_circuit(n, m), n,m <= 3: minimum over the auxiliaries for every (a, b, p); n,m <= 6: coefficients against the wiring model; "
         "combinations(n|labels, k) BINARY/SPIN, all assignments, rejected k; independent_set / maximum_independent_set / "
         "maximum_weight_independent_set with repeated edges, partial and repeated node lists, strength / strength_multiplier; "
         "knapsack / bin packing / multi-knapsack CQMs (random_* with seeds and direct constructors) on all assignments of small "
         "instances; random generators (uniform, randint, gnp, gnm, ran_r, doped, power_r) over all graph-argument forms; "
         "non-trivial per kind as set by the worker; distinct by canonical JSON of the case")
 TRUSTED = ["translators/gates_tables.py (fail-closed ast translator: gates.py -> Gen/Gen_Gates.v, re-run before every build)",
-           "model: coq/theories/Model/Gates.v, Comb.v (combinations_energy), ChkC17.v (hand written, tied by this correspondence)",
-           "multiplication circuit: the minimisation over auxiliaries is done in the worker (numpy enumeration through BQM.energies); "
-           "the decision `min = 0 <-> p = a*b, else >= 1` on the resulting table is made in Coq",
-           "knapsack / bin packing / multi-knapsack / random generators: decided in the worker (harness/w_c17_py.py) with exact "
-           "integers/Fractions against the generator's own recovered data; the random generators are monitored only (no theorem)",
+           "model: coq/theories/Model/Gates.v, Comb.v (combinations_energy), Knap.v (knapsack / multi-knapsack / bin packing), "
+           "MultCircuit.v (wiring of multiplication_circuit), ChkC17.v (hand written, tied by this correspondence)",
+           "multiplication circuit: the wiring model is compared coefficient-wise with the BQM for sizes up to 6x6 (in Coq); for the "
+           "energy table of sizes <= 3x3 the minimisation over auxiliaries is done in the worker (numpy enumeration through "
+           "BQM.energies) and the decision `min = 0 <-> p = a*b, else >= 1` on the resulting table is made in Coq",
+           "knapsack / bin packing / multi-knapsack: coefficients, feasibility (CQM.check_feasible) and objective are decided in Coq "
+           "against Model/Knap.v on all assignments of instances with <= 8 variables and on a seeded sample of 256-384 assignments up "
+           "to 16 variables; ranges, labels, seeds and all assignments up to 12 variables additionally in the worker (w_c17_py.py)",
+           "random generators: decided in the worker (harness/w_c17_py.py), monitored only (no theorem)",
            "float arithmetic of the implementation is exact on the generated dyadic data (not verified)"]
 ASSUMPTIONS = ["the coefficients a BQM reports define its energy, and BQM.energies / CQM.check_feasible evaluate them (property C01/C08)",
                "labels passed to a generator are pairwise distinct",
                "IEEE-754 arithmetic is exact on the small dyadic/integer coefficients generated"]
-PARTIAL = ["multiplication circuit: no composition theorem for all sizes; sizes <= 3x3 by enumeration in the correspondence only",
-           "knapsack / bin packing / multi-knapsack / quadratic assignment / magic square / satisfiability: no Coq model (worker-side exact check for the first three, the others not covered)",
+PARTIAL = ["C17_multiplication_circuit_partial: arithmetic correctness (all gates satisfied => product bits = a*b) by computation for "
+           "2 <= n, m <= 6 only; energy 0 <=> all gates satisfied and the simulation lemma hold for all sizes; no induction over the adder array",
+           "quadratic assignment / magic square / satisfiability generators: not covered",
            "random generators: monitored only"]
